@@ -41,9 +41,16 @@ const genRule = "clusters drawn from the PCG stream (VERIF_SEED, case index) by 
 
 // registerSched registers the scheduler-side checks.
 func registerSched() {
-	run.Register(&SchedCheck{Id: "C01", Profile: "tight", Quick: 1000, Thorough: 8000, Oracle: cyc(oracle.CheckC01),
-		RuleText: genRule + "Non-trivial: a case with >=1 successful Bind onto a node that held a terminating or same-cycle-evicted pod, or that ended within 25% of full in a requested resource. Distinct = distinct hash of (objects, config, faults).",
-		Assume:   []string{"DRA-claimed devices and CSI capacity are not checked", "pod slots of future reservation pods are not charged to the bind that opens a GPU group"}})
+	run.Register(&SchedCheck{Id: "C01", Profile: "tight", Quick: 1000, Thorough: 8000,
+		Oracle: func(m *oracle.Model, res *sched.CycleResult, after *spec.Objects, c *spec.Case, st *oracle.Stats) []run.Violation {
+			out := oracle.CheckC01(m, res.Events, res.Cycle, st)
+			// DRA: claimed devices are a node resource too (oracle/dra.go)
+			return append(out, oracle.CheckClaimedDevices(m, res.Events, after, res.Cycle, st)...)
+		},
+		RuleText: genRule + "Non-trivial: a case with >=1 successful Bind onto a node that held a terminating or same-cycle-evicted pod, or that ended within 25% of full in a requested resource. Distinct = distinct hash of (objects, config, faults). " +
+			"About 30% of the cases carry Dynamic Resource Allocation objects (DeviceClass, node-local ResourceSlices with 1-4 devices, ResourceClaims of 1-2 devices, see gen/dra.go); clause claimed-device-conservation: over the store before the cycle and the successful Binds, no device is allocated to two claims, every allocated device belongs to a slice of the selected node, an allocated claim keeps its devices and its pod goes to their node.",
+		Assume: []string{"CSI capacity is not checked", "pod slots of future reservation pods are not charged to the bind that opens a GPU group",
+			"DRA devices are node-local, of one non-GPU device class, requested by exact count; device taints, selectors, shared/consumable capacity and GPU-class claims are not generated"}})
 	run.Register(&SchedCheck{Id: "C02", Profile: "fractions", Quick: 1000, Thorough: 8000, Oracle: cyc(oracle.CheckC02),
 		RuleText: genRule + "Non-trivial: a case that binds a fractional pod into a group that already has a sharer, binds a multi-fraction pod, or binds on a node with <=1 free GPU device.",
 		Assume:   []string{"one accounting unit (1/deviceMemory) of slack per sharer", "device identity of whole-GPU pods is not observable; checked as whole+shared<=count"}})
@@ -115,7 +122,7 @@ func registerSched() {
 			return ""
 		},
 		NonTrivialFromStats: func(c map[string]int) bool { return c["evictions"] > 0 },
-		RuleText: genRule + "Closed system: evicted pods are re-created pending (same logical pod, new name), binds complete between cycles, no min-runtime, no API faults. Canonical state before every cycle = per (pod group, pod set) the multiset of placements (node + co-sharers of each GPU device | pending). Violation: a canonical state recurs with >= 1 eviction in between. Held: two consecutive cycles without any decision (fixpoint) or the cycle budget (24, thorough 48) ends without evictions in the last 4 cycles. Inconclusive: budget exhausted while still evicting without recurrence. Non-trivial: a case with >= 1 eviction.",
+		RuleText:            genRule + "Closed system: evicted pods are re-created pending (same logical pod, new name), binds complete between cycles, no min-runtime, no API faults. Canonical state before every cycle = per (pod group, pod set) the multiset of placements (node + co-sharers of each GPU device | pending). Violation: a canonical state recurs with >= 1 eviction in between. Held: two consecutive cycles without any decision (fixpoint) or the cycle budget (24, thorough 48) ends without evictions in the last 4 cycles. Inconclusive: budget exhausted while still evicting without recurrence. Non-trivial: a case with >= 1 eviction. About 30% of the generated (non-contention) closed systems carry Dynamic Resource Allocation objects (gen/dra.go); a re-created pod refers to the same claim (template-style claims are re-generated for it); device identity is not part of the canonical state.",
 		Assume: []string{"bounded restatement: no lasso within the cycle budget from the generated initial states; says nothing about longer periods",
 			"identical pods of one pod set are interchangeable in the canonical state"}})
 	var c07in *oracle.C07Input
@@ -159,15 +166,18 @@ func registerSched() {
 		NonTrivialFromStats: func(c map[string]int) bool {
 			return c["allocate-event"]+c["deallocate-event"] >= 20 && c["event_status_Releasing"] > 0 && c["event_status_Pipelined"] > 0
 		},
-		RuleText: genRule + "Online monitor plugin (last plugin of the last tier): after every Allocate/Deallocate event of every action and solver simulation, after OpenSession and after each action, nodes (closed forms + rebuild with NewNodeInfo/AddTask), workloads, pod sets, queues and vector==structured are recomputed from the pods. Non-trivial: a case whose sessions saw >= 20 events including Releasing and Pipelined transitions.",
-		Assume: []string{"whole-GPU Idle/Releasing are compared against a node rebuilt with the system's own constructor in snapshot order (reservation pods, non-pipelined, pipelined); skipped when a GPU group holds only pipelined pods (insertion order legitimately matters)",
+		RuleText: genRule + "Online monitor plugin (last plugin of the last tier): after every Allocate/Deallocate event of every action and solver simulation, after OpenSession and after each action, nodes (closed forms + rebuild with NewNodeInfo/AddTask), workloads, pod sets, queues and vector==structured are recomputed from the pods. Non-trivial: a case whose sessions saw >= 20 events including Releasing and Pipelined transitions. " +
+			"About 35% of the cases carry Dynamic Resource Allocation objects (gen/dra.go) and run with the DRA feature gate on; oracle claim-accounting (mon/dra.go) compares, at the same points, the DRA manager's view (assume cache, in-flight allocations, the allocator's allocated-device set) with what the pods imply: a pod holding a place on a node holds its claims (allocated, reserved for it, devices on its node, the API object's devices while it is a consumer there), nobody else keeps a claim allocated, no device is in two claims, device set == union of the claims' devices.",
+		Assume: []string{"claim-accounting: a really terminating or finished pod may still be a consumer; the claim of an in-flight BindRequest whose pod was evicted in the session is not judged (the manager cannot withdraw an in-flight allocation); devices are node-local, one non-GPU device class",
+			"whole-GPU Idle/Releasing are compared against a node rebuilt with the system's own constructor in snapshot order (reservation pods, non-pipelined, pipelined); skipped when a GPU group holds only pipelined pods (insertion order legitimately matters)",
 			"queue Request is only checked implicitly (it is not updated by events)"}})
 	run.Register(&SchedCheck{Id: "C13", Profile: "accounting", Quick: 800, Thorough: 6000,
 		NewMonitor: func() *mon.Monitor { return mon.New(false, true) },
 		NonTrivialFromStats: func(c map[string]int) bool {
 			return c["discards_checked"]+c["rollbacks_checked"] >= 2 && c["commits_checked"] >= 1
 		},
-		RuleText: genRule + "Statement lifecycle hooks (build tag verif): canonical dump of the session before a statement's first operation and at every checkpoint, compared after Discard / Rollback; Cache calls of every Commit compared with the net effect of the valid operations. Non-trivial: a case with >= 2 judged discards/rollbacks and >= 1 judged commit.",
+		RuleText: genRule + "Statement lifecycle hooks (build tag verif): canonical dump of the session before a statement's first operation and at every checkpoint, compared after Discard / Rollback; Cache calls of every Commit compared with the net effect of the valid operations. Non-trivial: a case with >= 2 judged discards/rollbacks and >= 1 judged commit. " +
+			"About 35% of the cases carry Dynamic Resource Allocation objects (gen/dra.go); for them the dump also holds the scheduler's view of every resource claim (assume cache object overlaid with the allocation of an in-flight BindRequest: devices sorted, reservedFor sorted), the allocator's allocated-device set, and per pod the allocation it remembers for each claim (PodInfo.ResourceClaimInfo).",
 		Assume: []string{"dump excludes tasksToAllocate caches, fit errors, topology scratch scores and GPUGroups of pods that are not on a node",
 			"a discard/rollback is judged only if no other statement with pending operations was alive and no commit happened in between"}})
 	run.Register(&SchedCheck{Id: "C10", Profile: "mixed", Quick: 1600, Thorough: 40000, PanicIsViolation: true, TimeoutCase: 10 * time.Second,
